@@ -76,6 +76,8 @@ def plan(tier):
             "DESIGN 2.5 (no word starting with / ~ . - $ after a blank or operator; command words id / vfnoop_N)",
             "file contents are text without CR (local read_text applies universal newlines)",
             "chmod(follow_symlinks=False) and is_executable are not exercised",
+            "walk(follow_symlinks=True) is not judged when a directory-symlink cycle is reachable from the walked top: the "
+            "local reference itself is ill-defined there (re-enters the loop until ELOOP); such walks are counted only",
             "umask 022; the sandbox's dash/coreutils stand for the remote host",
         ],
     }
@@ -221,6 +223,30 @@ def ftype(p):
     if os.path.islink(p):
         return "lf" if os.path.isfile(p) else "ld" if os.path.isdir(p) else "dangling"
     return "file" if os.path.isfile(p) else "dir" if os.path.isdir(p) else "other"
+
+
+def dir_symlink_cycle(top: str) -> bool:
+    """True iff, following symlinks, some directory reachable from `top` is its own ancestor (dev, ino)."""
+    def rec(path, ancestors, depth):
+        try:
+            st = os.stat(path)
+        except OSError:
+            return False
+        import stat as _st
+        if not _st.S_ISDIR(st.st_mode):
+            return False
+        key = (st.st_dev, st.st_ino)
+        if key in ancestors:
+            return True
+        if depth > 12:
+            return True  # deeper than any generated tree: treat as a cycle
+        try:
+            names_ = os.listdir(path)
+        except OSError:
+            return False
+        return any(rec(os.path.join(path, n), ancestors | {key}, depth + 1) for n in names_)
+
+    return rec(top, frozenset(), 0)
 
 
 def facts_of(root, op, names):
@@ -480,6 +506,14 @@ async def run_case(env: Env, sh: Shard, case: dict, is_twin: bool = False, want_
                     break
                 T.clone(L, R)
             facts = facts_of(L, op, names)
+            if op["op"] == "walk" and op["follow_symlinks"]:
+                rel0 = T.subst(op["path"], names)
+                if dir_symlink_cycle(os.path.join(L, rel0) if rel0 else L):
+                    # domain restriction, not a loosened oracle: on a directory-symlink cycle the *local reference*
+                    # is ill-defined (pathlib's walk re-enters the loop until the kernel answers ELOOP, ~40 levels,
+                    # platform dependent), so there is nothing to compare with.  Recorded, not judged.
+                    sh.count("out_of_domain_symlink_cycle_walks")
+                    continue
             lres = await local_op(env, L, op, names)
             rres = await guarded(env, perform(env, env.rloc, R, op, names))
             if any("&" in s for s in interpolated(op, names)):
